@@ -232,7 +232,7 @@ let predict_engine entries obs =
         if all_matched && none_left then pairs
         else List.mapi (fun k i -> (i, k + 1)) (List.concat_map (fun (j, k) -> List.init k (fun _ -> j)) served_l) in
       let shots = List.map shot_of model_reqs in
-      let var = engine_variant gen_run_cancel_only_in_check in
+      let var = gen_ooa_calls in   (* the cancel functions the source calls in the out-of-ammo branch *)
       let show err l = String.concat " " (("err=" ^ err) :: ("served=" ^ served) :: Printf.sprintf "n=%d" (List.length l) :: List.sort compare (List.map line l)) in
       let pred = if slow_run_over var shots then show "nil" (slow_run_lines var shots) else "err=hang" in
       (* specification: the pool ends without error; ids pairwise distinct; as many lines as requests the target has
